@@ -275,13 +275,15 @@ PROPS['C14'] = {
     'scope': 'keyword half (proof): field.rs::rename_keywords and as_field_name, for ALL strings, against the edition-2024 strict and '
              'reserved keyword lists (weak keywords are legal identifiers and may stay); injection half (bounded replay): names, enumeration and facet '
              'values, documentation, namespace URIs, addresses, soapAction, operation / part / message / service names',
-    'level_text': 'Deductive proof (Verus/Z3) over the real `match` on string literals: a non-keyword is returned unchanged; a strict or '
+    'level_text': 'TWO HALVES WITH DIFFERENT ASSURANCE. Injection half: bounded replay only (every position where schema text reaches the output x adversarial '
+                  'payload shapes, real generator, independent lexer as oracle) - exploration, not proof. Keyword half: '
+                  'deductive proof (Verus/Z3) over the real `match` on string literals: a non-keyword is returned unchanged; a strict or '
                   'reserved keyword is respelled to something that is not a keyword, and the raw form r#k is used only for keywords that may '
                   'be raw (not self/Self/crate/super); as_field_name never yields a keyword. Exhaustive over the keyword set and total over all other strings.',
     'level_note': 'Trusted: &str extensionality axiom (equal character sequences are equal strings) and reveal_strlit of the literals; the '
                   'Inflector stand-in (snake case is an uninterpreted total function). The INJECTION half (schema text interpolated into string '
                   'literals / comments / attributes / code through format!, whose output is opaque to Verus) is NOT proved: it gets a BOUNDED replay '
-                  '(labelled bounded in the evidence, never counted as proved): 16 positions x 8 adversarial payload shapes through the real generator, '
+                  '(labelled bounded in the evidence, never counted as proved): 18 positions x 9 adversarial payload shapes through the real generator, '
                   'the output classified by an independent lexer. Type, module, operation and envelope names do not go through rename_keywords and '
                   'are covered by that replay only.',
     'assumptions': ['keyword lists in contracts/keywords.json transcribe the Rust reference (edition 2024)'],
